@@ -1,12 +1,218 @@
+/-
+C05 — property theorems (every `theorem` in this module is a proof obligation; `bin/check C05` audits each
+one's axioms). Helper lemmas live in Kap/Proofs/C05*.lean; `Kap.C05.Gen` is regenerated from the Go
+source by extract/c05shapes on every run, so the theorems that mention `Gen.*` are re-checked against what
+the code says now.
+
+Statement (properties.jsonl): for every TICKscript text, template/vars document, JSON pipeline or lambda,
+defining it returns either a task or an error: it never panics, hangs, leaks goroutines or terminates the
+process. For every data point and every message from a UDF process, a running task reports an error for
+that point/peer at most and keeps processing subsequent points; the process and all other tasks are
+unaffected.
+
+A panic is the explicit outcome `trap` / `propagates` of every model, a hang is `fuel`.
+What is NOT proved (stated as `…_stmt`, searched by the child-process harness only): the statement/chain
+parser and the reflection-driven `tick.Evaluate` never raise a run-time error; see checks/C05.json.
+-/
+import Kap.Proofs.C05
+import Kap.Proofs.C05Udf
+import Kap.Spec.C05
 import Kap.Gen.C05
 namespace Kap.Props.C05
 open Kap.C05
 
-/-- placeholder, replaced below -/
-theorem getNode_total (tag : String) : getNode Gen.getNodeTags (Gen.getNodeDefaultErr == some true) tag ≠ .trap := by
+/-! ### The scanner (tick/ast/lex.go), for EVERY byte string and every character-class oracle -/
+
+/-- The repaired `peek` is what the source contains (extracted). -/
+theorem source_peek_restores_width : Gen.peekRestoresWidth = some true := by decide
+
+/-- **lexer_total + lexer_no_trap**: the scanner goroutine terminates within `10·len + 10` state-function
+iterations, never evaluates a slice expression out of range (no run-time panic), and closes its channel. -/
+theorem lexer_total (c : Ctx) (hf : c.fixed = true) : ∃ toks, lexRun c = .done toks := by
+  have hg : Good c {} := ⟨rfl, by simp, by simp, by simp [Ctx.len], ⟨by simp, by simp⟩⟩
+  obtain ⟨l', h, _⟩ := run_ok c hf (lexFuel c) {} .token hg trivial (by simp [mu, rank, lexFuel, Ctx.len])
+  exact ⟨_, h⟩
+
+/-- **lexer_in_bounds**: every token the scanner emits is a slice `[pos, pos+len)` inside the input, and the
+tokens come in order without overlap (error tokens count with length 0). -/
+theorem lexer_in_bounds (c : Ctx) (hf : c.fixed = true) (toks : List Tok) (h : lexRun c = .done toks) :
+    (∀ t ∈ toks, 0 ≤ t.pos ∧ 0 ≤ tlen t ∧ t.pos + tlen t ≤ c.len) ∧
+    toks.Pairwise (fun a b => a.pos + tlen a ≤ b.pos) := by
+  have hg : Good c {} := ⟨rfl, by simp, by simp, by simp [Ctx.len], ⟨by simp, by simp⟩⟩
+  obtain ⟨l', h', hfin⟩ := run_ok c hf (lexFuel c) {} .token hg trivial (by simp [mu, rank, lexFuel, Ctx.len])
+  have e : toks = l'.toks.reverse := by
+    have : LexOut.done toks = LexOut.done l'.toks.reverse := by rw [← h, ← h']; rfl
+    exact LexOut.done.inj this
+  subst e
+  refine ⟨fun t ht => hfin.ti.tb t (List.mem_reverse.mp ht), ?_⟩
+  exact List.pairwise_reverse.mpr hfin.ti.srt
+
+example : lexRun { inp := [0x2F, 0xC3, 0xA9, 0x2F], cls := Cls.none } =
+    .done [⟨tRegex, 0, some 4⟩, ⟨tEOF, 4, some 0⟩] := by decide
+
+/-- Full strength of "tokens partition the input": additionally the gaps between tokens are white space
+only and the stream ends with exactly one EOF (at the end of the input) or error token. Not proved; it is
+`Kap.C05.lexSpec`, evaluated on the implementation's token stream for every generated input. -/
+def lexer_partition_stmt : Prop :=
+  ∀ c : Ctx, c.fixed = true → ∀ toks, lexRun c = .done toks → lexSpec c (.toks toks true) = none
+
+/-- Counterexample (defect repaired by af76a39): with `peek` as it was at the snapshot, `/é/` drives the
+cursor to -1 and the next `l.input[l.pos:]` panics in the lexer goroutine (the process dies). -/
+theorem oldLexer_traps :
+    (lexRun { inp := [0x2F, 0xC3, 0xA9, 0x2F], cls := Cls.none, fixed := false }).isTrap = true := by decide
+
+/-- … and where it does not panic it mis-positions: in `a/,(/𝄞` the old scanner emits the single byte `/`
+at offset 4 as a regex token after re-reading `/,(/` from offset 1. -/
+theorem oldLexer_mispositions :
+    lexRun { inp := [0x61, 0x2F, 0x2C, 0x28, 0x2F, 0xF0, 0x9D, 0x84, 0x9E], cls := Cls.none, fixed := false } =
+      .done [⟨tIdent, 0, some 1⟩, ⟨tDiv, 1, some 1⟩, ⟨tComma, 2, some 1⟩, ⟨tLParen, 3, some 1⟩, ⟨tRegex, 4, some 1⟩,
+             ⟨tError, 5, none⟩] := by decide
+
+/-- The model's token numbering is the `iota` block of lex.go (extracted). -/
+theorem token_constants_agree :
+    Gen.tokenConsts.lookup "TokenError" = some tError ∧ Gen.tokenConsts.lookup "TokenEOF" = some tEOF ∧
+    Gen.tokenConsts.lookup "TokenVar" = some tVar ∧ Gen.tokenConsts.lookup "TokenDBRP" = some tDBRP ∧
+    Gen.tokenConsts.lookup "TokenAsgn" = some tAsgn ∧ Gen.tokenConsts.lookup "TokenDot" = some tDot ∧
+    Gen.tokenConsts.lookup "TokenPipe" = some tPipe ∧ Gen.tokenConsts.lookup "TokenAt" = some tAt ∧
+    Gen.tokenConsts.lookup "TokenIdent" = some tIdent ∧ Gen.tokenConsts.lookup "TokenReference" = some tReference ∧
+    Gen.tokenConsts.lookup "TokenLambda" = some tLambda ∧ Gen.tokenConsts.lookup "TokenNumber" = some tNumber ∧
+    Gen.tokenConsts.lookup "TokenString" = some tString ∧ Gen.tokenConsts.lookup "TokenDuration" = some tDuration ∧
+    Gen.tokenConsts.lookup "TokenLParen" = some tLParen ∧ Gen.tokenConsts.lookup "TokenRParen" = some tRParen ∧
+    Gen.tokenConsts.lookup "TokenLSBracket" = some tLSBracket ∧ Gen.tokenConsts.lookup "TokenRSBracket" = some tRSBracket ∧
+    Gen.tokenConsts.lookup "TokenComma" = some tComma ∧ Gen.tokenConsts.lookup "TokenNot" = some tNot ∧
+    Gen.tokenConsts.lookup "TokenTrue" = some tTrue ∧ Gen.tokenConsts.lookup "TokenFalse" = some tFalse ∧
+    Gen.tokenConsts.lookup "TokenRegex" = some tRegex ∧ Gen.tokenConsts.lookup "TokenComment" = some tComment ∧
+    Gen.tokenConsts.lookup "TokenStar" = some tStar ∧ Gen.tokenConsts.lookup "TokenPlus" = some tPlus ∧
+    Gen.tokenConsts.lookup "TokenMinus" = some tMinus ∧ Gen.tokenConsts.lookup "TokenMult" = some tMult ∧
+    Gen.tokenConsts.lookup "TokenDiv" = some tDiv ∧ Gen.tokenConsts.lookup "TokenMod" = some tMod ∧
+    Gen.tokenConsts.lookup "TokenAnd" = some tAnd ∧ Gen.tokenConsts.lookup "TokenOr" = some tOr ∧
+    Gen.tokenConsts.lookup "TokenEqual" = some tEqual ∧ Gen.tokenConsts.lookup "TokenNotEqual" = some tNotEqual ∧
+    Gen.tokenConsts.lookup "TokenLess" = some tLess ∧ Gen.tokenConsts.lookup "TokenGreater" = some tGreater ∧
+    Gen.tokenConsts.lookup "TokenLessEqual" = some tLessEqual ∧ Gen.tokenConsts.lookup "TokenGreaterEqual" = some tGreaterEqual ∧
+    Gen.tokenConsts.lookup "TokenRegexEqual" = some tRegexEqual ∧ Gen.tokenConsts.lookup "TokenRegexNotEqual" = some tRegexNotEqual := by
+  decide
+
+/-! ### The lexer goroutine and the parser that stops early -/
+
+/-- **parser_stops_lexer**: `stopParse` drains the token channel (extracted), so after ANY parse — accepted,
+or rejected after any number of tokens — the lexer goroutine has run to `close(l.tokens)` and is gone.
+Needs `lexer_total`: draining a scanner that does not terminate would hang. -/
+theorem parser_stops_lexer (c : Ctx) (hf : c.fixed = true) (consumed : Nat) :
+    lexerGoroutineExits c (Gen.stopParseDrains == some true) consumed = true := by
+  obtain ⟨toks, h⟩ := lexer_total c hf
+  simp [lexerGoroutineExits, h, Gen.stopParseDrains]
+
+/-- Counterexample (defect repaired by 10171bf): without the drain, a parser that stops after one token of
+`a b` leaves the lexer goroutine blocked in `emit` for ever. -/
+theorem oldParser_leaks_lexer :
+    lexerGoroutineExits { inp := [0x61, 0x20, 0x62], cls := Cls.none } false 1 = false := by decide
+
+/-! ### Go's defer/recover discipline on the shapes extracted from the source -/
+
+/-- **node_panic_becomes_error**: whatever a node's run function does — return, fail, or panic with any
+value — `node.start` hands an error-or-nil to `errCh` and the panic does not leave the goroutine: the
+process survives, the task fails. -/
+theorem node_panic_becomes_error (b : Body) :
+    runDeferred Gen.nodeStart b = .returns (match b with | .ret e => e | .panics _ => true) := by
+  cases b with
+  | ret e => rfl
+  | panics v => cases v <;> decide
+
+/-- Counterexample (defect repaired by 42547c8): with `recover()` under `if err != nil` the panic of the
+run function is never recovered. -/
+theorem oldNodeStart_panic_kills_process (v : PanicVal) :
+    runDeferred { guard := .ifErrNonNil, rethrow := .nothing, assertsError := false } (.panics v) = .propagates v := by
+  cases v <;> rfl
+
+/-- `parser.recover` turns every panic raised by `p.errorf` — the only `panic(` calls of parser.go pass
+`fmt.Errorf(…)` values (extracted) — into the error result of `Parse`/`ParseLambda`. -/
+theorem parser_error_panics_become_errors :
+    Gen.parserPanicsWithErrorsOnly = some true ∧
+    runDeferred Gen.parserRecover (.panics .errorVal) = .returns true ∧
+    ∀ e, runDeferred Gen.parserRecover (.ret e) = .returns e := by
+  refine ⟨by decide, by decide, fun e => rfl⟩
+
+/-- Full strength: `ast.Parse` never panics. NOT provable from the shape: `parser.recover` deliberately
+re-panics `runtime.Error`s, so it holds only if the (unmodelled) recursive-descent parser never raises one
+(e.g. `db.(*ReferenceNode)`, slice bounds in `unexpected`). Searched by the child-process harness. -/
+def parser_never_panics_stmt : Prop := ∀ b : Body, ∃ e, runDeferred Gen.parserRecover b = .returns e
+
+/-- What the shape does give: exactly the run-time errors and non-error panic values get through. -/
+theorem parser_recover_characterised (v : PanicVal) :
+    runDeferred Gen.parserRecover (.panics v) = (match v with
+      | .errorVal | .emptyStack => .returns true
+      | .runtimeErr => .propagates .runtimeErr
+      | .other => .propagates .runtimeErr) := by
+  cases v <;> decide
+
+/-- `tick.Evaluate` recovers `ErrEmptyStack` only; every other panic raised while the script is evaluated
+against the node API is re-panicked into `CreatePipeline` / `TaskMaster.NewTask`. -/
+theorem evaluate_recover_characterised (v : PanicVal) :
+    runDeferred Gen.evaluate (.panics v) = (if v = .emptyStack then .returns true else .propagates v) := by
+  cases v <;> decide
+
+/-- Full strength: `tick.Evaluate` never panics. Not provable (see above): the reflection-driven evaluator
+is not modelled. One script text reaching the re-panic was found and repaired (7803d70); the harness keeps
+searching with scripts generated from the node API. -/
+def evaluate_never_panics_stmt : Prop := ∀ b : Body, ∃ e, runDeferred Gen.evaluate b = .returns e
+
+/-! ### The UDF peer -/
+
+/-- **udf_total (responses)**: for every sequence of responses a UDF process can send — negative or absurd
+batch sizes, `End` without `Begin`, empty or undecodable messages, absurd frame sizes — `readData` /
+`handleResponse` end with end-of-stream or an error, never a run-time panic. -/
+theorem udf_total (st : Option Nat) (rs : List Resp) : (udfRun true st rs).2 ≠ .trap :=
+  udfRun_no_trap st rs
+
+/-- … and what was delivered before the offending message stays delivered: a later message can only end
+the stream, never retract or alter earlier output. -/
+theorem udf_delivered_prefix (st : Option Nat) (rs rs' : List Resp) :
+    (∃ tail, (udfRun true st (rs ++ rs')).1 = (udfRun true st rs).1 ++ tail) ∧
+    ((udfRun true st rs).2 ≠ .clean → udfRun true st (rs ++ rs') = udfRun true st rs) :=
+  udfRun_prefix st rs rs'
+
+example : udfRun true none [.point, .begin 2, .point, .point, .endB, .endB, .point] = ([.p, .b 2], .err) := by decide
+
+/-- Counterexamples (defects repaired by d3f3121, 34570d1, 3b7bb8e): each of these single responses killed
+the process at the snapshot. -/
+theorem oldUdf_traps :
+    (udfRun false none [.begin (-1)]).2 = .trap ∧ (udfRun false none [.endB]).2 = .trap ∧
+    (udfRun false none [.nilMsg]).2 = .trap ∧ (udfRun false none [.huge (2 ^ 62)]).2 = .trap := by decide
+
+/-- **udf_total (bytes)**: for every byte stream on the UDF socket the frame reader never panics … -/
+theorem udf_read_no_trap (bs : Bytes) : Frame.trap ∉ readAll true bs := readAll_no_trap bs
+
+/-- … and always comes to an end (end of stream or an error), i.e. the read loop is not starved of fuel:
+the last result is not a message. -/
+theorem udf_read_terminates (bs : Bytes) :
+    ∃ pre t, readAll true bs = pre ++ [t] ∧ ∀ off, t ≠ .msg off := readAll_ends bs
+
+/-- Counterexample (defect repaired by 8b0f657): a length prefix of 2^62 made `make([]byte, size)` panic. -/
+theorem oldUdfRead_traps :
+    readAll false [0x80, 0x80, 0x80, 0x80, 0x80, 0x80, 0x80, 0x80, 0x40] = [.trap] := by decide
+
+/-- No explicit `panic(` is left on the path that handles what the peer sends (extracted call sites). -/
+theorem udf_reader_path_has_no_explicit_panic :
+    ∀ f ∈ Gen.udfPanicSites, f ∉ ["readData", "readResponse", "handleResponse", "doResponse", "typeMapsToFields", "ReadMessage"] := by
+  decide
+
+/-! ### The JSON node factory -/
+
+/-- **getNode_total**: over the extracted `typeOf` switch, every tag either allocates a concrete node or is
+reported as an error; no tag reaches the method call on a nil `Node`. -/
+theorem getNode_total (tag : String) :
+    getNode Gen.getNodeTags (Gen.getNodeDefaultErr == some true) tag ≠ .trap := by
   unfold getNode
   split
   · simp
   · simp [Gen.getNodeDefaultErr]
+
+/-- every case of the switch has the plain shape `n = &XNode{}` (nothing the model does not cover). -/
+theorem getNode_switch_is_plain : Gen.getNodeOddCases = [] := by decide
+
+/-- Counterexample (defect repaired by 7705ef8): without the `default:` any unknown tag — including
+"chain", which every marshalled program contains — dereferenced nil. -/
+theorem oldGetNode_traps : getNode Gen.getNodeTags false "chain" = .trap ∧ getNode Gen.getNodeTags false "bogus" = .trap := by
+  decide
 
 end Kap.Props.C05
